@@ -43,6 +43,7 @@ FILL = {
     'arr': 'a(1)', 'sarr': 't$(2)', 'rec': 'r.x', 'whole_rec': 'r',
     'ncall': 'ABS(f)', 'scall': 'CHR$(65)', 'sum': 'i% + 2.5', 'cat': 's$ + "x"', 'cmp': 'i% < 3',
     'mixed': 's$ + 1', 'paren': '(i%)', 'zero': '0',
+    'bigf': '211062652928!', 'halfl': '2147483647.5#',
 }
 ALL = list(FILL)
 SMALL = ['int', 'flt', 'str', 'ivar', 'svar', 'arr', 'whole_rec', 'mixed']
@@ -173,7 +174,7 @@ def programs(name):
             out.append(((k,), src))
         return out
     if holes == 'binary':
-        left = TINY + ['svar'] if thorough() else ['int', 'fvar', 'svar']
+        left = TINY + ['svar', 'bigf', 'halfl'] if thorough() else ['int', 'fvar', 'svar', 'bigf']
         right = TINY + ['svar', 'zero', 'neg'] if thorough() else ['big', 'str', 'zero', 'neg']
         fills = [(a, b, op) for a in left for b in right for op in BINOPS]
         texts = [tpl.format(FILL[a], FILL[b], op) for a, b, op in fills]
@@ -271,8 +272,15 @@ def body_compile(h, name):
             except (QSyntaxError, CompileError):
                 continue
             except _TooSlow:
-                h.prove('compilation_finishes_in_reasonable_time', False,
-                        detail=f'-O{opt}{" -g" if dbg else ""} {src!r}: not finished after {COMPILE_LIMIT_S} s (typical: 0.1 s)')
+                # once more: a stalled worker is not a slow compiler, a blow-up in the compiler is slow every time
+                try:
+                    with time_limit(COMPILE_LIMIT_S):
+                        Compiler('qvm', optimization_level=opt, debug_info=dbg).compile(src)
+                except _TooSlow:
+                    h.prove('compilation_finishes_in_reasonable_time', False,
+                            detail=f'-O{opt}{" -g" if dbg else ""} {src!r}: twice not finished after {COMPILE_LIMIT_S} s (typical: 0.1 s)')
+                except Exception:       # noqa: BLE001 - reported by the first attempt's handlers on the next run
+                    pass
                 continue
             except Exception as e:          # noqa: BLE001 - that is the point
                 h.prove('only_syntax_and_compile_errors_escape_the_compiler', False, known=known_for(name, fill, src, e),
@@ -352,6 +360,125 @@ def body_run(h, name):
     h.prove('no_machine_level_fault', True)
 
 
+class _TraceImpl(_Impl):
+    """scripted peripherals that record every device interaction"""
+
+    def __init__(self):
+        super().__init__()
+        self.trace = []
+
+    def terminal_input(self, same_line):
+        self.trace.append(('terminal_input', same_line))
+        return super().terminal_input(same_line)
+
+    def __getattr__(self, name):
+        if name.startswith('__'):
+            raise AttributeError(name)
+
+        def rec(*a):
+            self.trace.append((name,) + a)
+        return rec
+
+
+def outcome(src, opt, dbg):
+    """what a user can observe of one compilation + run: compile error class, or device interactions and how it stopped"""
+    import contextlib
+    import io
+    for attempt in (1, 2):
+        try:
+            with time_limit(COMPILE_LIMIT_S):
+                code = Compiler('qvm', optimization_level=opt, debug_info=dbg).compile(src)
+                mod = QModule.parse(bytes(code))
+            break
+        except _TooSlow:
+            # a worker that was stalled once is not a slow compiler: try again; slowness itself is compile.bounded's
+            # obligation, not a difference in behaviour
+            if attempt == 2:
+                return ('slow',)
+        except BaseException as e:      # noqa: BLE001
+            return ('compile', type(e).__name__)
+    impl = _TraceImpl()
+    m = QvmMachine(mod, impl=impl)
+    cpu = m.cpu
+    try:
+        with contextlib.redirect_stdout(io.StringIO()):
+            for _ in range(4000):
+                if cpu.halted or cpu.pc >= len(mod.code):
+                    break
+                cpu.tick()
+            else:
+                return ('running', tuple(impl.trace[:40]))
+    except Exception as e:              # noqa: BLE001
+        return ('host exception', type(e).__name__, tuple(impl.trace))
+    return ('stopped', cpu.halt_reason.name, cpu.last_trap.name if cpu.last_trap else None, tuple(impl.trace))
+
+
+def equiv_names():
+    """quick tier: templates with at most one hole and the miscellaneous programs; thorough: all"""
+    if thorough():
+        return NAMES
+    return [t[0] for t in TEMPLATES if t[2] in (0, 1, 'misc', 'unary', 'binary')]
+
+
+EQUIV_CHUNK = 12
+EQUIV_FILLERS_QUICK = ('int', 'str', 'ivar', 'svar', 'arr', 'whole_rec', 'mixed', 'zero', 'neg', 'bigf', 'halfl', 'flt')
+
+
+def equiv_programs(name):
+    """quick tier: one-hole templates use a reduced filler pool that still contains the literals at the folder's range checks"""
+    progs = programs(name)
+    holes = next(t for t in TEMPLATES if t[0] == name)[2]
+    if not thorough() and holes == 1:
+        progs = [(f, src) for f, src in progs if f[0] in EQUIV_FILLERS_QUICK]
+    return progs
+
+
+def equiv_configs():
+    """(optimisation levels compared with -O0, levels compared with debug information on)"""
+    return ((1, 2), (0, 2)) if thorough() else ((2,), (0,))
+
+
+def equiv_cases():
+    out = []
+    for n in equiv_names():
+        k = (len(equiv_programs(n)) + EQUIV_CHUNK - 1) // EQUIV_CHUNK
+        out += [(n, i) for i in range(max(1, k))]
+    return out
+
+
+def body_equiv(h, name, chunk=None):
+    """BOUNDED: the same program at -O0 and -O2 (thorough: also -O1) performs the same device interactions and stops the same
+    way (C02); with debug information at -O0 (thorough: also -O2) it does too, unless it executes RESUME, which needs the
+    debug map (C08)"""
+    n = 0
+    progs = equiv_programs(name)
+    if chunk is not None:
+        progs = progs[chunk * EQUIV_CHUNK:(chunk + 1) * EQUIV_CHUNK]
+    opt_levels, dbg_levels = equiv_configs()
+    for fill, src in progs:
+        base = outcome(src, 0, False)
+        if base[0] in ('running', 'slow'):
+            continue
+        n += 1
+        for opt in opt_levels:
+            o = outcome(src, opt, False)
+            if o != base and o[0] != 'slow':
+                h.prove('optimisation_does_not_change_what_the_program_does', False,
+                        detail=f'{src!r}: -O0 {str(base)[:200]} / -O{opt} {str(o)[:200]}')
+                break
+        if 'RESUME' in src.upper():
+            continue
+        for opt in dbg_levels:
+            o = outcome(src, opt, True)
+            if o != base and o[0] != 'slow':
+                h.prove('debug_information_does_not_change_what_the_program_does', False,
+                        detail=f'{src!r}: -O0 {str(base)[:200]} / -O{opt} -g {str(o)[:200]}')
+                break
+    h.prove('programs_compared', True, detail=str(n))
+    h.prove('optimisation_does_not_change_what_the_program_does', True)
+    h.prove('debug_information_does_not_change_what_the_program_does', True)
+
+
 NAMES = [t[0] for t in TEMPLATES]
 
 CONTRACTS = [
@@ -359,6 +486,11 @@ CONTRACTS = [
              cases=[(n,) for n in NAMES],
              bounded='small programs from %d statement templates x expression fillers (quick: -O0; thorough: -O0/1/2 x -g on/off), '
                      'compiled natively by the real Compiler' % len(TEMPLATES)),
+    Contract('equiv.bounded', ['C02', 'C08'], ['qbee.compiler:Compiler.compile', 'qbee.qvm_codegen:QvmCode.optimize', 'qvm.cpu:QvmCpu.tick'],
+             body_equiv, cases=equiv_cases(),
+             bounded='template programs compiled at -O0/-O1/-O2 and with debug information, run natively for at most 4000 instructions with '
+                     'scripted input: same device interactions and same way of stopping (quick: templates with at most one hole, the '
+                     'binary-operator template and the miscellaneous programs; thorough: all templates)'),
     Contract('run.bounded', ['C03', 'C07'], ['qbee.compiler:Compiler.compile', 'qvm.cpu:QvmCpu.tick'], body_run,
              cases=[(n,) for n in NAMES],
              bounded='the accepted programs of compile.bounded run natively for at most 4000 instructions with scripted input'),
